@@ -1,9 +1,73 @@
 import NmVerif.Proto
-namespace NmVerif.Driver.C10
-open NmVerif NmVerif.Proto
+import NmVerif.Basic
+import NmVerif.NDA
+import NmVerif.Arr
+import NmVerif.Eval.Eval
+/-
+  Driver handler of C10: answers with the MODEL of the evaluator (NmVerif.Eval) only.
 
-def handle : Handler := fun op _args =>
+  The view being evaluated is a parameter of the model (`Arr`): the request carries its shape and its elements in C
+  order (`vshape`, `vdata`; elements are opaque tokens, so integer provenance ids and float bit patterns alike).
+
+    eval_fresh vshape=… vdata=… [col=0]
+        `evaluator_t::operator()()` with the row-major and the column-major resolver:
+        ok shape=<shape> data=<logical elements of the row-major result, C order> col=<buffer of the column-major result>
+    eval_into vshape=… vdata=… oshape=… olayout=row|col [init=<token>]
+        `evaluator_t::operator()(output&)` on a caller-supplied output pre-filled with `init` (default -7):
+        ok shape=<out shape> buf=<buffer of the output afterwards>   (+ ` events=3:1` on the silent return)
+    eval_maybe has=0|1 vshape=… vdata=…
+        maybe lifting of `detail::eval`: `nothing` for an empty optional, else as eval_fresh
+-/
+namespace NmVerif.Driver.C10
+open NmVerif NmVerif.Proto NmVerif.Eval
+
+def toks (s : String) : List String :=
+  if s == "[]" || s == "" then [] else s.splitOn ","
+
+def fmtToks (l : List String) : String :=
+  if l.isEmpty then "[]" else ",".intercalate l
+
+/-- the view given by its shape and its elements in C order -/
+def viewOf (s : Shape) (d : List String) : Arr String :=
+  ⟨s, fun i => d.getD (computeOffset i (strides s)) "?"⟩
+
+/-- logical elements of a concrete array in C order of its shape -/
+def logical (a : NDA String) : List String :=
+  (allIdx a.shape).map (fun i => (a.get? i).getD "oob")
+
+def parseView (a : Args) : Option (Arr String) := do
+  let s ← a.nats "vshape"
+  let d ← (a.get? "vdata").map toks
+  if d.length == prod s then some (viewOf s d) else none
+
+def show2 (a : Args) (r c : NDA String) : String :=
+  let col := if a.get? "col" == some "0" then "-" else fmtToks c.data
+  s!"ok shape={fmtNats r.shape} data={fmtToks (logical r)} col={col}"
+
+def fresh (a : Args) (v : Arr String) : String := show2 a (evalFresh false v) (evalFresh true v)
+
+def handle : Handler := fun op a =>
   match op with
+  | "eval_fresh" => orBad do
+      let v ← parseView a
+      pure (fresh a v)
+  | "eval_maybe" => orBad do
+      let h ← a.nat "has"
+      -- `detail::eval` on nmtools_maybe<view>: Nothing stays Nothing, a value is evaluated
+      let ov : Option (Arr String) ← if h == 0 then some none else (parseView a).map some
+      pure (match evalMaybe false ov, evalMaybe true ov with
+        | some r, some c => show2 a r c
+        | _, _ => "nothing")
+  | "eval_into" => orBad do
+      let v ← parseView a
+      let os ← a.nats "oshape"
+      let cm := (a.get? "olayout") == some "col"
+      let init := (a.get? "init").getD "-7"
+      let out : NDA String := { shape := os, colMajor := cm, data := List.replicate (prod os) init }
+      let r := evalInto out v
+      -- hook event 3 = the silent return of eval.hpp on a shape mismatch
+      let ev := if os == v.shape then "" else " events=3:1"
+      pure s!"ok shape={fmtNats r.shape} buf={fmtToks r.data}{ev}"
   | _ => none
 
 end NmVerif.Driver.C10
